@@ -152,7 +152,8 @@ SpecOutcome(R) ==
            [] R.op = "Equal" -> Eval1(W, DoEq(st, a[1], a[2], FALSE, NoPos))
            [] R.op = "RawEqual" -> Eval1(W, Builtin(<<>>, st, "rawequal", a, FALSE, NoPos))
            [] R.op = "LessThan" -> Lt(W, st, a[1], a[2])
-           [] R.op = "Concat" -> (IF Len(a) = 2 THEN Cat2(W, st, a[1], a[2]) ELSE Cat3(W, st, a[1], a[2], a[3]))
+           [] R.op = "Concat" -> (IF Len(a) = 0 THEN Out("val", <<>>, Str(<<>>), st.heap)   \* nothing to concatenate: ""
+                                  ELSE IF Len(a) = 2 THEN Cat2(W, st, a[1], a[2]) ELSE Cat3(W, st, a[1], a[2], a[3]))
            [] R.op = "ObjLen" -> LenOf(W, st, a[1])
            [] R.op = "GetMetatable" -> Out("val", <<>>, GetMt(R, st, a[1]), st.heap)
            [] R.op = "RawMetatable" -> Out("val", <<>>, RawMt(R, st, a[1]), st.heap)
